@@ -124,6 +124,8 @@ namespace igris
         void unlink_and_move_all_nodes_from_other(dlist_base &&oth)
         {
             list.unlink();
+            if (oth.empty())
+                return; // nothing to take over: this list is simply empty now
             list.next = oth.list.next;
             list.prev = oth.list.prev;
             list.next->prev = &list;
